@@ -1,8 +1,9 @@
 (* C16 -- tensor-product helpers compute exactly the documented Kronecker chains; Pauli index maps.
    This file contains only statements closed by [exact <lemma>] and their assumptions. *)
-From Coq Require Import ZArith List Arith Permutation.
+From Coq Require Import ZArith List Arith Lia Permutation.
 From FF Require Import Model.Tensor Model.PauliIdx Model.Tie.C16 Spec.Kron
-  Proofs.TensorIdx Proofs.TensorOrder Proofs.Tensor Proofs.TensorKron Proofs.PauliIdx.
+  Proofs.TensorIdx Proofs.TensorOrder Proofs.Tensor Proofs.TensorKron Proofs.TensorInsert
+  Proofs.TensorInsertModel Proofs.TensorInsertLoop Proofs.TensorUnfold Proofs.TensorTranspose Proofs.TensorMerge Proofs.PauliIdx.
 Import ListNotations.
 
 (* ---- util.tensor: the einsum '...ab,...cd->...acbd' + reshape of binary_tensor is the Kronecker product
@@ -62,6 +63,101 @@ Print Assumptions C16_insert_dims_invariant.
 Example C16_insert_dims_example :
   insert_loop dims_step (insert_items 2 [0; 1]%Z [5; 7]) 0 ([2; 3], [2; 3]) = Ok ([5; 2; 7; 3], [5; 7; 2; 3]).
 Proof. reflexivity. Qed.
+
+(* ---- tensor_insert, numerically (all ranks, all chains of well-formed rank-r factors, all admissible
+   position tuples incl. negative / end / repeated positions; no leading broadcast axes):
+   (1) single_tensor_insert (reshape to the RECORDED constituent dimensions, einsum with the constructed
+       subscripts, reshape to the product shape) is the Kronecker insertion of Spec/Kron.v, which uses
+       the recorded dimensions only through the products behind the insertion point;
+   (2) Kronecker insertion into a chain = chain with the factor inserted;
+   (3) the whole loop: tensor_insert(tensor(L), *G, pos, dims of L) = tensor(rearranged list). *)
+Theorem C16_single_insert_is_kron_ins : forall r m C ins Ds pos,
+  1 <= r -> length Ds = r -> Forall (fun d => length d = m) Ds -> pos <= m ->
+  wf r C -> wf r ins -> shp C = map prodn Ds ->
+  single_tensor_insert r C ins Ds pos =
+  Ok (kron_ins (map (fun d => prodn (firstn pos d)) Ds) (map (fun d => prodn (skipn pos d)) Ds) C ins).
+Proof. exact single_insert_kron_ins. Qed.
+Theorem C16_kron_ins_chain : forall r L1 L2 ins, Forall (wf r) L1 -> Forall (wf r) L2 -> wf r ins ->
+  kron_ins (shp (chain_u r L1)) (shp (chain_u r L2)) (chain_u r (L1 ++ L2)) ins = chain_u r (L1 ++ ins :: L2).
+Proof. exact kron_ins_chain_u. Qed.
+Theorem C16_insert_spec : forall r (L G : list arr) (pos : list Z),
+  1 <= r -> 1 <= length L -> Forall (wf r) L -> Forall (wf r) G -> G <> [] ->
+  length pos = length G -> Forall (admissible (length L)) pos ->
+  tensor_insert r (chain_u r L) G (PSeq pos) (map (fun a => axis_dims a L) (seq 0 r)) =
+  Ok (chain_u r (chain_spec fst snd (combine (map (npos (length L)) pos) G) 0 L)).
+Proof. exact tensor_insert_spec. Qed.
+Print Assumptions C16_insert_spec.
+Theorem C16_insert_equals_tensor_of_rearranged : forall r (L G : list arr) (pos : list Z),
+  1 <= r -> 1 <= length L -> Forall (wf r) L -> Forall (wf r) G -> G <> [] ->
+  length pos = length G -> Forall (admissible (length L)) pos ->
+  (do a <- tensor r L; tensor_insert r a G (PSeq pos) (map (fun a => axis_dims a L) (seq 0 r))) =
+  tensor r (chain_spec fst snd (combine (map (npos (length L)) pos) G) 0 L).
+Proof. exact insert_equals_tensor_of_rearranged. Qed.
+Print Assumptions C16_insert_equals_tensor_of_rearranged.
+Theorem C16_insert_int_spec : forall r (L G : list arr) (p : Z),
+  1 <= r -> 1 <= length L -> Forall (wf r) L -> Forall (wf r) G -> G <> [] -> admissible (length L) p ->
+  tensor_insert r (chain_u r L) G (PInt p) (map (fun a => axis_dims a L) (seq 0 r)) =
+  Ok (chain_u r (firstn (npos (length L) p) L ++ G ++ skipn (npos (length L) p) L)).
+Proof. exact tensor_insert_int_spec. Qed.
+Example C16_insert_spec_example :
+  Forall (wf 2) [exA; exB] /\ Forall (wf 2) [exC; exA] /\ Forall (admissible 2) [-1; 0]%Z /\
+  chain_spec fst snd (combine (map (npos 2) [-1; 0]%Z) [exC; exA]) 0 [exA; exB] = [exA; exA; exC; exB] /\
+  (do a <- tensor 2 [exA; exB]; tensor_insert 2 a [exC; exA] (PSeq [-1; 0]%Z) [[2; 1]; [1; 3]]) =
+  tensor 2 [exA; exA; exC; exB].
+Proof.
+  repeat split; try reflexivity; try (repeat constructor; unfold admissible; simpl; lia).
+Qed.
+
+(* ---- tensor_transpose, numerically: reshape to the constituent dimensions, transpose by
+   [nb + r*ndim + o for r in range(rank) for o in order], reshape back = Kronecker chain of the permuted
+   factor list (new factor k = old factor order[k]); every rank, every chain, every permutation. *)
+Theorem C16_unfolded_entry : forall r L V, 1 <= r -> L <> [] -> Forall (wf r) L -> Forall2 inb V (dims_table r L) ->
+  aget (mkArr (concat (dims_table r L)) (dat (chain_u r L))) (concat V) =
+  zprod (map (fun k => aget (nth k L (mkArr [] [])) (factor_pick r V k)) (seq 0 (length L))).
+Proof. exact unfolded_entry'. Qed.
+Theorem C16_transpose_spec : forall r L ord,
+  1 <= r -> 1 <= length L -> Forall (wf r) L -> Permutation ord (seq 0 (length L)) ->
+  tensor_transpose r (chain_u r L) (map Z.of_nat ord) (dims_table r L) = Ok (chain_u r (permute_list ord L)).
+Proof. exact transpose_spec. Qed.
+Print Assumptions C16_transpose_spec.
+Example C16_transpose_example :
+  Forall (wf 2) [exA; exB; exC] /\ Permutation [1; 2; 0] (seq 0 3) /\
+  permute_list [1; 2; 0] [exA; exB; exC] = [exB; exC; exA] /\
+  (do a <- tensor 2 [exA; exB; exC]; tensor_transpose 2 a [1; 2; 0]%Z [[2; 1; 2]; [1; 3; 2]]) =
+  tensor 2 [exB; exC; exA].
+Proof.
+  repeat split; try reflexivity; try (repeat constructor).
+  apply (Permutation_trans (l' := [1; 0; 2])); [apply perm_skip; apply perm_swap | apply perm_swap].
+Qed.
+
+Theorem C16_transpose_equals_tensor_of_rearranged : forall r L ord,
+  1 <= r -> 1 <= length L -> Forall (wf r) L -> Permutation ord (seq 0 (length L)) ->
+  (do a <- tensor r L; tensor_transpose r a (map Z.of_nat ord) (dims_table r L)) = tensor r (permute_list ord L).
+Proof. exact transpose_equals_tensor_of_rearranged. Qed.
+
+(* ---- tensor_merge, numerically (code after d3c7a1d): the single einsum with the constructed subscripts on
+   the two chains reshaped to their constituent dimensions = Kronecker chain of the merged factor list;
+   every rank, every pair of chains, every admissible position tuple (mixed sign, repeated, end). *)
+Theorem C16_merge_spec : forall r (LA LI : list arr) (pos : list Z),
+  1 <= r -> 1 <= length LA -> 1 <= length LI -> Forall (wf r) LA -> Forall (wf r) LI ->
+  length pos = length LI -> Forall (admissible (length LA)) pos ->
+  tensor_merge r (chain_u r LA) (chain_u r LI) pos (dims_table r LA) (dims_table r LI) =
+  Ok (chain_u r (chain_spec fst snd (combine (map (npos (length LA)) pos) LI) 0 LA)).
+Proof. exact tensor_merge_spec. Qed.
+Print Assumptions C16_merge_spec.
+Theorem C16_merge_equals_tensor_of_rearranged : forall r (LA LI : list arr) (pos : list Z),
+  1 <= r -> 1 <= length LA -> 1 <= length LI -> Forall (wf r) LA -> Forall (wf r) LI ->
+  length pos = length LI -> Forall (admissible (length LA)) pos ->
+  (do a <- tensor r LA; do i <- tensor r LI; tensor_merge r a i pos (dims_table r LA) (dims_table r LI)) =
+  tensor r (chain_spec fst snd (combine (map (npos (length LA)) pos) LI) 0 LA).
+Proof. exact merge_equals_tensor_of_rearranged. Qed.
+Example C16_merge_spec_example :
+  Forall (wf 2) [exA; exB] /\ Forall (wf 2) [exC; exA] /\ Forall (admissible 2) [-1; 0]%Z /\
+  (do a <- tensor 2 [exA; exB]; do i <- tensor 2 [exC; exA];
+   tensor_merge 2 a i [-1; 0]%Z [[2; 1]; [1; 3]] [[2; 2]; [2; 1]]) = tensor 2 [exA; exA; exC; exB].
+Proof.
+  repeat split; try reflexivity; try (repeat constructor; unfold admissible; simpl; lia).
+Qed.
 
 (* ---- einsum subscripts built by _tensor_insert_subscripts and tensor_merge are the axis-block-wise
    interleavings that denote the rearranged chain *)
